@@ -55,6 +55,96 @@ let run_originops (c : case) =
       | _ -> failwith "originops: ops after segs/probe are not supported")
     rest
 
+
+(* ------------------------------------------------------------------ tree (Iter.v) *)
+let rec parse_tree (toks : string list) : Tree.tree * string list =
+  match toks with
+  | "L" :: o :: l :: ln :: r ->
+      (Tree.Leaf { Tree.l_off = n_of_int (int_of_string o); Tree.l_len = n_of_int (int_of_string l);
+                   Tree.l_line = n_of_int (int_of_string ln) }, r)
+  | "(" :: k :: r ->
+      let rec kids r acc =
+        match r with
+        | ")" :: r' -> (Stdlib.List.rev acc, r')
+        | _ -> let t, r' = parse_tree r in kids r' (t :: acc)
+      in
+      let cs, r' = kids r [] in
+      (Tree.Node (n_of_int (int_of_string k), cs), r')
+  | _ -> failwith "tree syntax"
+
+let run_tree (c : case) =
+  let kinds = Hashtbl.create 64 in
+  let ws = ref 0 in
+  let kidx name = let r = ref (-1) in Hashtbl.iter (fun i n -> if n = name then r := i) kinds; !r in
+  let tok (t : Tree.tree) =
+    match t with
+    | Tree.Leaf l -> Printf.sprintf "@%d:%d:%d" (int_of_n l.Tree.l_off) (int_of_n l.Tree.l_len) (int_of_n l.Tree.l_line)
+    | Tree.Node (k, _) -> "+" ^ (try Hashtbl.find kinds (int_of_n k) with Not_found -> "?")
+  in
+  let kindname (t : Tree.tree) =
+    match t with Tree.Leaf _ -> "Locate" | Tree.Node (k, _) -> (try Hashtbl.find kinds (int_of_n k) with Not_found -> "?") in
+  let iter_of st = Iter.iter_run (nat_of_int (2 + Stdlib.List.fold_left (fun a t -> a + int_of_nat (Tree.size t)) 0 st)) in
+  let first_leaf (t : Tree.tree) =
+    match Iter.unwrap_node [BinNums.N0] (Iter.iter_run (nat_of_int (2 + int_of_nat (Tree.size t))) (Iter.node_into_iter t)) with
+    | Some (Tree.Leaf l) -> string_of_int (int_of_n l.Tree.l_off)
+    | _ -> "-" in
+  let evtok e = match e with Tree.Enter x -> "E" ^ tok x | Tree.Leave x -> "L" ^ tok x in
+  let range r = match r with None -> "-" | Some (b, e) -> Printf.sprintf "%d:%d" (int_of_n b) (int_of_n e - int_of_n b) in
+  Stdlib.List.iter
+    (fun l ->
+      match l with
+      | "kind" :: i :: name :: _ -> Hashtbl.replace kinds (int_of_string i) name
+      | "ws" :: i :: _ -> ws := int_of_string i
+      | "tree" :: what :: toks ->
+          let t, _ = parse_tree toks in
+          let sz = int_of_nat (Tree.size t) in
+          let all = Iter.iter_run (nat_of_int (sz + 2)) (Iter.node_into_iter t) in
+          let wants = Stdlib.String.split_on_char ',' what in
+          let want w = Stdlib.List.mem w wants in
+          if want "iter" then begin
+            pr "iter"; Stdlib.List.iter (fun n -> pr " %s" (tok n)) all; pr "\n" end;
+          if want "events" then begin
+            pr "events";
+            Stdlib.List.iter (fun e -> pr " %s" (evtok e))
+              (Iter.ev_run (nat_of_int (2 * sz + 2)) (Iter.iter_event (Iter.node_into_iter t)));
+            pr "\n" end;
+          if want "sub" then begin
+            let n = Stdlib.List.length all in
+            Stdlib.List.iteri
+              (fun i nd ->
+                if i mod 5 = 0 || n < 40 then begin
+                  let s = int_of_nat (Tree.size nd) in
+                  let sub = Iter.iter_run (nat_of_int (s + 2)) (Iter.node_into_iter nd) in
+                  pr "sub %d" i; Stdlib.List.iter (fun m -> pr " %s" (tok m)) sub; pr "\n";
+                  pr "subev %d" i;
+                  Stdlib.List.iter (fun e -> pr " %s" (evtok e))
+                    (Iter.ev_run (nat_of_int (2 * s + 2)) (Iter.iter_event (Iter.node_into_iter nd)));
+                  pr "\n";
+                  let uw label ks =
+                    let ks = Stdlib.List.map (fun k -> n_of_int (if k = "Locate" then 0 else kidx k)) ks in
+                    match Iter.unwrap_node ks sub with
+                    | Some x -> pr "unwrap %d:%s %s@%s\n" i label (tok x) (first_leaf x)
+                    | None -> pr "unwrap %d:%s -\n" i label in
+                  uw "loc" ["Locate"]; uw "kwsym" ["Keyword"; "Symbol"];
+                  uw "id" ["SimpleIdentifier"; "EscapedIdentifier"]; uw "ws" ["WhiteSpace"; "Comment"];
+                  (match Iter.unwrap_node [BinNums.N0] sub with
+                   | Some x -> pr "unwraploc %d %s\n" i (tok x)
+                   | None -> pr "unwraploc %d -\n" i)
+                end)
+              all end;
+          if want "nodeinfo" then
+            Stdlib.List.iteri
+              (fun i nd ->
+                let s = int_of_nat (Tree.size nd) in
+                let st = Iter.iter_new [nd] in
+                let a = Iter.get_str_range (Iter.iter_run (nat_of_int (s + 2)) st) in
+                let b = Iter.get_str_trim_range (n_of_int !ws) true
+                          (Iter.ev_run (nat_of_int (2 * s + 2)) (Iter.iter_event st)) in
+                pr "n %d %s str=%s trim=%s\n" i (kindname nd) (range a) (range b))
+              all
+      | _ -> failwith "tree: unknown line")
+    c.lines
+
 let () =
   let cmd = Sys.argv.(1) in
   let cases = read_cases Sys.argv.(2) in
@@ -64,6 +154,7 @@ let () =
       (try
          match cmd with
          | "originops" -> run_originops c
+         | "tree" -> run_tree c
          | _ -> failwith "unknown command"
        with
        | Stack_overflow -> pr "model-abort stack\n"
